@@ -25,8 +25,10 @@ CONSTANTS
     Monitor,          \* BOOLEAN: service task enabled
     WsAvailable,      \* BOOLEAN: the async mode offers a websocket
     Transports,       \* subset of {"polling", "websocket"} the server allows
-    ImplSentinel,     \* BOOLEAN: close() puts the None sentinel (threaded) or not (asyncio)
+    ImplSentinel,     \* BOOLEAN: close() puts the None sentinel (both servers; FALSE = the
+                      \* asyncio behaviour before its repair, kept as a negative control)
     ImplWsReadTimeout,\* BOOLEAN: websocket reads time out after I+T (asyncio)
+    ImplJoinLatch,    \* BOOLEAN: queue.join() returns once the counter has been 0 (asyncio)
     Deviations,       \* set of known-defect names whose behaviour is admitted
     Horizon           \* latest tick (bounds the model; traces use a large value)
 
@@ -75,6 +77,7 @@ FreshSess == [used |-> FALSE, conn |-> FALSE, upging |-> FALSE, upged |-> FALSE,
 (*          "probed" (PING probe answered), "upgraded" (then UPGRADE),      *)
 (*          "fresh" (opened as websocket)]                                  *)
 (*   rejd   sessions whose connect handler rejected the connection          *)
+(*   jzero  [Sid -> unfinished count reached 0 since the last join began]   *)
 (***************************************************************************)
 
 InitG == [ss |-> [s \in Sid |-> FreshSess], table |-> {},
@@ -82,7 +85,7 @@ InitG == [ss |-> [s \in Sid |-> FreshSess], table |-> {},
           deliv |-> [s \in Sid |-> <<>>], hq |-> <<>>, pstart |-> [s \in Sid |-> 0],
           out |-> <<>>, exc |-> "none", dev |-> {}, cause |-> [s \in Sid |-> "none"],
           rcvd |-> [s \in Sid |-> <<>>], endt |-> [s \in Sid |-> None],
-          hs |-> [s \in Sid |-> "none"], rejd |-> {}]
+          hs |-> [s \in Sid |-> "none"], rejd |-> {}, jzero |-> [s \in Sid |-> FALSE]]
 
 NoWs == [st |-> "none", rid |-> 0, dl |-> None]
 
@@ -185,16 +188,19 @@ ReceiveAll(gg, s, body) ==
 \* A drained sentinel is re-put at the end of the queue.
 DrainIdx(q) == FirstIdx(q, LAMBDA x : x = NIL)
 Drain(q) ==
-    IF Head(q) = NIL THEN [pk |-> <<>>, q |-> Tail(q), done |-> 1]
+    \* done = net decrease of the unfinished counter; tdone = number of task_done() calls
+    \* (the counter transiently goes that low before a drained sentinel is put again)
+    IF Head(q) = NIL THEN [pk |-> <<>>, q |-> Tail(q), done |-> 1, tdone |-> 1]
     ELSE LET i == DrainIdx(q)
-         IN IF i = 0 THEN [pk |-> q, q |-> <<>>, done |-> Len(q)]
+         IN IF i = 0 THEN [pk |-> q, q |-> <<>>, done |-> Len(q), tdone |-> Len(q)]
             ELSE [pk |-> SubSeq(q, 1, i - 1),
                   q |-> Append(SubSeq(q, i + 1, Len(q)), NIL),
-                  done |-> i - 1]      \* NIL: task_done then put again: net 0
+                  done |-> i - 1, tdone |-> i]
 
 DoDrain(gg, s) ==
     LET d == Drain(gg.ss[s].q)
-    IN [gg EXCEPT !.ss[s].q = d.q, !.ss[s].unf = @ - d.done]
+    IN [gg EXCEPT !.ss[s].q = d.q, !.ss[s].unf = @ - d.done,
+                  !.jzero[s] = @ \/ (gg.ss[s].unf - d.tdone = 0)]
 
 Delivered(gg, s, pk, via) ==
     [gg EXCEPT !.deliv[s] = @ \o [i \in 1..Len(SelectSeq(pk, IsSrvMsg)) |->
@@ -224,6 +230,10 @@ Refuse(status) ==
     /\ nreq' = nreq + 1
     /\ g' = Resp(EnvStart(g), nreq + 1, status, <<>>)
     /\ UNCHANGED <<now, polls, psleep, wsr, wsin, wsw, wsgone, joiners, mon>>
+
+\* any request the admission chain refuses (wrong method, version, transport, session id,
+\* JSONP index ...) and OPTIONS: answered with the given status, no effect whatsoever
+AnyReq(status) == status \in {200, 400, 405} /\ Refuse(status)
 
 OpenPolling(outcome, hsend) ==
     IF "polling" \notin Transports THEN Refuse(400) ELSE
@@ -338,7 +348,8 @@ PostReq(s, body) ==
                       /\ UNCHANGED joiners
                  ELSE /\ g' = Resp([g0 EXCEPT !.table = @ \ {s}], rid, 400, <<>>)
                       /\ UNCHANGED joiners
-             ELSE IF body = <<"GARBAGE">> \/ body = <<"EMPTYBODY">>
+             ELSE IF (Len(body) = 1 /\ Len(body[1]) >= 7 /\ SubSeq(body[1], 1, 7) = "GARBAGE")
+                     \/ body = <<"EMPTYBODY">>
                      \/ (Len(body) = 1 /\ Len(body[1]) > 7 /\ SubSeq(body[1], 1, 7) = "TOOMANY") THEN
                  \* undecodable, empty, or more packets than the per-payload limit: refused as a
                  \* whole, no packet is acted upon
@@ -413,7 +424,7 @@ AppDisconnect(s) ==
            d == DisconnectG(EnvStart(g), s)
        IN /\ nreq' = cid
           /\ IF d.blocks
-             THEN /\ g' = d.gn
+             THEN /\ g' = [d.gn EXCEPT !.jzero[s] = FALSE]
                   /\ joiners' = Append(joiners, [s |-> s, kind |-> "api", id |-> cid])
              ELSE /\ g' = Out(d.gn, [k |-> "ret", cid |-> cid])
                   /\ UNCHANGED joiners
@@ -496,7 +507,9 @@ PingFire(i) ==
 JoinReturn(i) ==
     /\ i \in 1..Len(joiners)
     /\ LET j == joiners[i]
-       IN /\ g.ss[j.s].unf = 0
+       IN \* threading: join() re-checks the counter when it runs; asyncio: join() returns once
+          \* the counter has reached zero, even if something was put since
+          /\ g.ss[j.s].unf = 0 \/ (ImplJoinLatch /\ g.jzero[j.s])
           /\ LET g1 == [g EXCEPT !.table = @ \ {j.s}]
              IN g' = IF j.kind = "req" THEN Resp(g1, j.id, 400, <<>>)
                      ELSE Out(g1, [k |-> "ret", cid |-> j.id])
